@@ -184,10 +184,25 @@ func runBulkheadSchedule(t *testing.T, cap int, maxWait int64, n, nsteps int, va
 		for i := 0; i < free; i++ {
 			bh.ReleasePermit()
 		}
+		// wind down: first everybody who is still waiting is cancelled (a waiter must not be handed a permit by a holder that is
+		// let go below and then sit at its gate for ever), then the holders are let go, until nobody holds a permit any more
 		for i := 0; i < n; i++ {
-			if status[i] == 2 {
-				gates[i] <- true
+			if status[i] == 1 {
+				cancels[i]()
 			}
+		}
+		synctest.Wait()
+		for again := true; again; {
+			again = false
+			for i := 0; i < n; i++ {
+				if status[i] == 2 {
+					gates[i] <- true
+					again = true
+				}
+			}
+			synctest.Wait()
+		}
+		for i := 0; i < n; i++ {
 			cancels[i]()
 		}
 		synctest.Wait()
